@@ -59,11 +59,15 @@
        and Set on the container end itself (link an unowned object; unset when the object is the last child,
        C06_set_on_container_end_*; without `last child` false: C06_set_on_container_end_relink_refuted,
        F-C06-relink-order);
+     * Add / Remove / Move on collections of references WITHOUT containment and without opposite (any
+       metamodel; C06_add_/remove_/move_plain_ref_undo_redo);
      * the word-level theorems for all of this: invariant of the (done, undone) history and k undos then
        k redos = identity for words over attributes, plain references, containment with and without container
        end (Set / Add / Remove / Move), Set on container ends and Compounds thereof, each command meeting its side condition in the
-       state it meets (C06_words_invariant_containment_partial, C06_k_undo_k_redo_containment_partial), and
-       for the reference kinds of the second group closed under Compound (..._refs_compound_partial);
+       state it meets (C06_words_invariant_containment_partial, C06_k_undo_k_redo_containment_partial); the
+       same with plain reference collections added, under K2 = K + unique collections hold an object at most
+       once (C06_words_invariant_all_partial, C06_k_undo_k_redo_all_partial); and for the reference kinds
+       of the second group closed under Compound (..._refs_compound_partial);
      * DELETE: execute / redo / undo of any Delete keep WF (C06_delete_keeps_WF).  Undo restores the
        observable state for the Delete of a LEAF child (no contents, no link but its container end, empty
        inverse set): every value, container and resource membership back, the parent's collection with
@@ -78,7 +82,7 @@
    the word-level invariant is too coarse for Delete; references with an opposite inside metamodels that
    also have containment (the second group assumes no containment at all); Set that re-parents (container
    end from one container to another) or sets the value already held; self-opposite references; Move on
-   references that are not containments.  For these the model is tied to the implementation by the correspondence only, and the
+   references with an opposite.  For these the model is tied to the implementation by the correspondence only, and the
    implementation is known NOT to satisfy the property in the situations listed in known_findings.json
    (ids F-C06-...). *)
 From Coq Require Import ZArith List Bool.
@@ -675,6 +679,88 @@ Example C06_move_word_result :
   let ms3 := st_run Acyclic.ex_mm_tree ms1 (repeat SUndo 5 ++ repeat SRedo 5) in
   vals (fst ms3) (0, 0) = [VObj 3; VObj 2; VObj 1] /\ sidx (snd ms3) = 4%Z.
 Proof. exact ex_move_word_result. Qed.
+
+(* ---------- collections of references without containment and without opposite ---------- *)
+(* loose m f: many-valued, no containment, no opposite (attribute collections are the non-reference case of
+   C06_add_attr_undo_redo etc.); cell_wt: the slot is well typed and, if unique, duplicate-free *)
+Theorem C06_add_plain_ref_undo_redo :
+  forall m f, loose m f ->
+  forall s x v idx c1 s' c',
+    cell_wt m f (vals s (x, f)) ->
+    can_execute m s (CAdd x f v idx) = (Ok true, c1) ->
+    execute m s c1 = ((None, s'), c') ->
+    exists i', c' = CAdd x f v (Some i') /\
+               inverts m c' s s' /\ only_cell s s' (x, f) (py_insert i' v (vals s (x, f))) /\
+               cell_wt m f (py_insert i' v (vals s (x, f))).
+Proof. exact add_loose_inverts. Qed.
+Print Assumptions C06_add_plain_ref_undo_redo.
+
+Theorem C06_remove_plain_ref_undo_redo :
+  forall m f, loose m f ->
+  forall s x v idx c1 s' c',
+    cell_wt m f (vals s (x, f)) ->
+    can_execute m s (CRemove x f v idx) = (Ok true, c1) ->
+    execute m s c1 = ((None, s'), c') ->
+    exists i w l2, c' = CRemove x f w (Some i) /\
+                   inverts m c' s s' /\ only_cell s s' (x, f) l2 /\ cell_wt m f l2.
+Proof. exact remove_loose_inverts. Qed.
+Print Assumptions C06_remove_plain_ref_undo_redo.
+
+Theorem C06_move_plain_ref_undo_redo :
+  forall m f s x v from to c1 s' c',
+    loose m f -> cell_wt m f (vals s (x, f)) ->
+    (is_none v = true \/ from = None) ->
+    can_execute m s (CMove x f v from to) = (Ok true, c1) ->
+    execute m s c1 = ((None, s'), c') ->
+    exists fr w to' l2, c' = CMove x f w (Some fr) to' /\ inverts m c' s s' /\ only_cell s s' (x, f) l2.
+Proof. exact move_loose_inverts. Qed.
+Print Assumptions C06_move_plain_ref_undo_redo.
+
+(* ---------- the widest word-level theorems ---------- *)
+(* K2 m s = K m s + every unique collection holds an object at most once (C07Full's uniq_ok, preserved by
+   every kernel operation).  covered6 m = covered5 m closed under Compound; covered5 m s c: covered3 m s c
+   (attributes, plain single references, containment with and without container end - Set / Add / Remove /
+   Move -, Set on container ends) or Add / Remove / Move on a plain reference collection. *)
+Theorem C06_words_invariant_all_partial :
+  forall m, wf_mm m -> ref_typed m ->
+  forall s0 w,
+    K2 m s0 -> run_ok m (covered6 m) (s0, [], []) w ->
+    ginv m (K2 m) (abs (st_run m (s0, empty_stack) w)).
+Proof. exact all_invariant_of_words. Qed.
+Print Assumptions C06_words_invariant_all_partial.
+
+Theorem C06_k_undo_k_redo_all_partial :
+  forall m, wf_mm m -> ref_typed m ->
+  forall s0 w k,
+    K2 m s0 -> run_ok m (covered6 m) (s0, [], []) w ->
+    let ms := st_run m (s0, empty_stack) w in
+    k <= length (done_of (snd ms)) ->
+    let ms' := st_run m ms (repeat SUndo k ++ repeat SRedo k) in
+    obs_eq (fst ms') (fst ms) /\ snd ms' = snd ms.
+Proof. exact all_k_undo_k_redo. Qed.
+Print Assumptions C06_k_undo_k_redo_all_partial.
+
+(* non-vacuity: kids <-> parent, a plain reference collection refs, attributes n and ns *)
+Example C06_all_premises :
+  wf_mm ex_mm_all /\ ref_typed ex_mm_all /\ K2 ex_mm_all (init_state ex_mm_all).
+Proof. exact ex_all_premises. Qed.
+
+Example C06_all_word_ok :
+  run_ok ex_mm_all (covered6 ex_mm_all) (init_state ex_mm_all, [], []) ex_all_word.
+Proof. exact ex_all_word_ok. Qed.
+
+Example C06_all_word_result :
+  let ms := st_run ex_mm_all (init_state ex_mm_all, empty_stack) ex_all_word in
+  vals (fst ms) (0, 0) = [VObj 1] /\ vals (fst ms) (0, 2) = [VObj 2] /\ vals (fst ms) (0, 3) = [VInt 5] /\
+  vals (fst ms) (1, 2) = [] /\ vals (fst ms) (0, 4) = [] /\ cont (fst ms) 1 = Some (0, 0) /\ sidx (snd ms) = 5%Z /\
+  let ms1 := st_run ex_mm_all ms [SRedo] in
+  vals (fst ms1) (1, 2) = [VObj 0] /\ vals (fst ms1) (0, 4) = [VInt 7] /\
+  let ms2 := st_run ex_mm_all ms1 (repeat SUndo 6 ++ repeat SRedo 6) in
+  vals (fst ms2) (0, 2) = [VObj 2] /\ vals (fst ms2) (1, 2) = [VObj 0] /\ vals (fst ms2) (0, 0) = [VObj 1] /\
+  sidx (snd ms2) = 6%Z /\
+  let ms3 := st_run ex_mm_all ms1 (repeat SUndo 4) in
+  vals (fst ms3) (0, 2) = [VObj 1; VObj 2].
+Proof. exact ex_all_word_result. Qed.
 
 (* ---------- Delete ---------- *)
 (* whatever is deleted and whatever the snapshot holds: execute, redo and undo of a Delete keep WF *)
